@@ -8,7 +8,7 @@ PROPERTY = 'C08'
 LEVEL = 'exploration'
 RULE = ('file contents of length 0..6: ALL 2^(n-1) compositions into sync DATA records x ALL sets of <=k cut positions of the resulting sync byte stream into '
         'WRTE payloads (so every 8-byte sync header is split at every offset) + the all-1-byte chunking, destinations path/BytesIO, callback none/counting/'
-        'raising, both twins, read-fragment deviations; a pull following an aborted pull on the same connection; device paths outside ASCII (one a prefix of another) with the exact UTF-8 path seen by the device; large files (64 KiB boundaries, MiB) x record sizes x WRTE sizes; oracle: destination bytes == model '
+        'raising, both twins, read-fragment deviations; zero-length WRTEs inside the reply; a pull following an aborted pull on the same connection; device paths outside ASCII (one a prefix of another) with the exact UTF-8 path seen by the device; large files (64 KiB boundaries, MiB) x record sizes x WRTE sizes; oracle: destination bytes == model '
         'file, stream closed with exactly one host CLSE and every device packet consumed, callback counts sum to the size; non-trivial = file non-empty; '
         'distinct = distinct (content length, composition, cut set, destination, callback, twin, deviations)')
 ASSUMPTIONS = ['adbsim sync service (mc/adbsim.py) follows SYNC.TXT', 'file contents are seeded pseudo-random bytes; only length and chunking are enumerated']
@@ -31,6 +31,8 @@ def run_small(params, ch):
         cuts = oracle.choose_cuts(ch, blob_len, kmax)
         cut = {'at': cuts}
     cfg = {'fs': {'files': {b'/f': {'data': data, 'mode': 0o100644, 'mtime': 9}}}, 'records': comp, 'cut': cut, 'okay_order': params.get('okay')}
+    if params.get('empty_at') is not None:
+        cfg['empty_wrte_at'] = params['empty_at']
     return pull_and_judge(params, ch, cfg, data, (n, tuple(comp), tuple(cuts) if isinstance(cuts, list) else cuts))
 
 
@@ -152,6 +154,8 @@ def parts(tier):
     out.append(Part('dest-x-callback', sc, run_small, {'*': None}, what='destination path/BytesIO x callback none/counting/raising; all-1-byte chunking', bound='<=1 cut'))
     sc = [{'n': n, 'twin': t, 'dest': 'bytesio', 'cb': cb, 'kmax': 1, 'okay': 'late'} for n in range(0, 6) for t in twins for cb in (None, 'count')]
     out.append(Part('reply-before-okay', sc, run_small, {'*': None}, what='DATA records overtaking the OKAY that acknowledges the RECV request', bound='<=1 cut'))
+    sc = [{'n': n, 'twin': t, 'dest': 'bytesio', 'cb': cb, 'kmax': 1, 'empty_at': e} for n in (0, 1, 4) for t in twins for cb in (None, 'count') for e in (0, 1, 2)]
+    out.append(Part('empty-wrte-in-reply', sc, run_small, {'*': None}, what='a zero-length WRTE in front of piece 0/1/2 of the RECV reply (and of the STAT reply of a callback), all compositions, every single cut', bound='<=1 cut'))
     sc = [{'n': n, 'twin': t, 'dest': 'bytesio', 'cb': cb, 'kmax': 1, 'frag': True} for n in (1, 4) for t in twins for cb in (None, 'count')]
     out.append(Part('frag', sc, run_small, {'records': None, 'ncuts': None, 'cutpos': None, 'frag': 1}, split=2, what='read-fragment deviations on top of compositions and cuts',
                     bound='frag deviations <= 1, <=1 cut'))
